@@ -1,11 +1,126 @@
-(* Property C12 — statements; see DESIGN.md §6 C12.  The model-level refinement
-   theorems are being proved in Proofs/TapeProofs.v / Proofs/AcceptProofs.v;
-   until they are in, this file carries the full statement as a definition,
-   the tie obligations the statement rests on, and the property is decided on
-   every run by the correspondence described in DESIGN.md. *)
+(* Property C12 — lookup, filtered iteration and bulk accessors agree with
+   plain traversal.  Statements only; proofs in Proofs/Lookup*.v (summary and
+   the setting in Proofs/LookupFinal.v, instances in Proofs/LookupExamples.v).
+
+   Reading guide: [denotes true true pj it d] = the iterator it stands on a
+   value of the tape whose segment reads as d (plain traversal from it returns
+   d: C12_plain_traversal); [obj_at true true pj o l] / [arr_at true true pj a l]
+   = o / a is the Object / Array that Iter.Object() / Iter.Array() returns on
+   an iterator denoting DObj l / DArr l.  [found]: Found ty it | NotFound (nil,
+   ErrPathNotFound) | OtherErr.  Crash / OutOfFuel never occur (the C12_total theorems of LookupFinal). *)
 From SJ Require Import Model.Base Model.RefTables Spec.Json Spec.EditSpec Model.Driver Model.Tape Model.Iter Model.Walk Model.Edit Model.WF Tie.GoTablesTie.
+From SJ Require Import Proofs.TapeSeg Proofs.TapeProofs Proofs.LookupBase Proofs.LookupEach Proofs.LookupNum
+     Proofs.LookupBulk Proofs.LookupIface Proofs.LookupTop Proofs.LookupFinal.
 Open Scope N_scope.
 
 Theorem C12_tie_TagToType : tab_diff gen.Tables.gen_TagToType TagToType_ref 256 = [].
 Proof. exact tie_TagToType. Qed.
-Print Assumptions C12_tie_TagToType.
+
+(* the setting is inhabited: every object of a tape_ok tape has an Object *)
+Theorem C12_objects_exist pj ds p l :
+  tape_ok pj -> denote (pj_msg pj) (pj_strings pj) (pj_tape pj) = Some ds ->
+  get_docs p ds = Some (DObj l) -> exists o, obj_at true true pj o l.
+Proof. exact (C12_obj_at_path pj ds p l). Qed.
+
+Theorem C12_plain_traversal pj it d :
+  sized pj -> denotes true true pj it d -> walk_value (S (length (pj_tape pj))) pj it = Ok d.
+Proof. exact (C12_denotes_walk pj it d). Qed.
+
+(* FindKey: the first member with the key, or nil *)
+Theorem C12_FindKey pj o l key :
+  sized pj -> obj_at true true pj o l ->
+  exists r, find_key pj o key = Ok r /\
+    match abs_find_key l key with
+    | Some d => exists it, r = Found (doc_type d) it /\ denotes true true pj it d
+    | None => r = NotFound
+    end.
+Proof. exact (C12_find_key pj o l key). Qed.
+
+(* FindPath: the value at the key path / ErrPathNotFound / another error *)
+Theorem C12_FindPath pj o l path :
+  sized pj -> obj_at true true pj o l ->
+  exists r, find_path pj o path = Ok r /\
+    match abs_find_path (DObj l) path with
+    | LFound d => exists it, r = Found (doc_type d) it /\ denotes true true pj it d
+    | LNotFound => r = NotFound
+    | LOtherErr => r = OtherErr
+    end.
+Proof. exact (C12_find_path pj o l path). Qed.
+
+Theorem C12_FindElement pj it d path :
+  sized pj -> denotes true true pj it d ->
+  exists r, find_element pj it path = Ok r /\
+    match abs_find_path d path with
+    | LFound x => exists it', r = Found (doc_type x) it' /\ denotes true true pj it' x
+    | LNotFound => r = NotFound
+    | LOtherErr => r = OtherErr
+    end.
+Proof. exact (C12_find_element pj it d path). Qed.
+
+(* ForEach with a key filter, keys unique within the object *)
+Theorem C12_ForEach pj o l only :
+  sized pj -> obj_at true true pj o l -> NoDup (map fst l) ->
+  exists cbs, obj_foreach pj o only = Ok cbs /\
+    Forall2 (callback_for true true pj) cbs (abs_foreach l only).
+Proof. exact (C12_obj_foreach pj o l only). Qed.
+
+Theorem C12_Array_ForEach pj a l :
+  arr_at true true pj a l ->
+  exists its, arr_foreach pj a = Ok its /\ Forall2 (denotes true true pj) its l.
+Proof. exact (C12_arr_foreach pj a l). Qed.
+
+(* bulk accessors = the typed accessor mapped over the elements *)
+Theorem C12_AsString pj a l :
+  sized pj -> arr_at true true pj a l ->
+  as_string pj a = omap doc_string l /\
+  as_string pj a = (do its <- arr_foreach pj a; omap (string_bytes pj) its).
+Proof. exact (C12_as_string pj a l). Qed.
+
+Theorem C12_AsNumber k pj a l :
+  words64 pj -> arr_at true true pj a l ->
+  as_num k pj a = omap (elem_num k) l /\
+  as_num k pj a = (do its <- arr_foreach pj a; omap (iter_num k pj) its).
+Proof. exact (C12_as_num k pj a l). Qed.
+
+(* Interface(): the image of the document; maps: last duplicate wins *)
+Theorem C12_Interface pj it d :
+  sized pj -> denotes true true pj it d ->
+  interface_val (S (length (pj_tape pj))) pj it = Ok (doc_ival d).
+Proof. exact (C12_interface_val pj it d). Qed.
+
+Theorem C12_Interface_doc pj ds :
+  sized pj -> tape_ok pj -> denote (pj_msg pj) (pj_strings pj) (pj_tape pj) = Some ds ->
+  interface_doc pj = match ds with [] => Err | _ => Ok (map doc_ival ds) end.
+Proof. exact (C12_interface_doc pj ds). Qed.
+
+(* numeric conversions: in range <-> success, value exact (truncated) *)
+Theorem C12_Float_to_Int bits p q :
+  sf_frac (sf_of_bits bits) = Some (p, q) ->
+  (0 < q)%Z /\
+  ((- two63z * q <= p < two63z * q)%Z -> conv_int (NFloat bits 0) = Ok (p ÷ q)%Z) /\
+  (~ (- two63z * q <= p < two63z * q)%Z -> conv_int (NFloat bits 0) = Err).
+Proof. exact (C12_float_to_int bits p q). Qed.
+
+Theorem C12_Float_to_Uint bits p q :
+  sf_frac (sf_of_bits bits) = Some (p, q) ->
+  ((0 <= p < two64z * q)%Z -> conv_uint (NFloat bits 0) = Ok (Z.to_N (p ÷ q))) /\
+  (~ (0 <= p < two64z * q)%Z -> conv_uint (NFloat bits 0) = Err).
+Proof. exact (C12_float_to_uint bits p q). Qed.
+
+Theorem C12_Accessors pj it d :
+  sized pj -> words64 pj -> denotes true true pj it d ->
+  iter_int pj it = doc_int d /\ iter_uint pj it = doc_uint d /\
+  iter_float pj it = doc_float d /\ string_bytes pj it = doc_string d.
+Proof. exact (C12_accessors pj it d). Qed.
+
+Print Assumptions C12_FindKey.
+Print Assumptions C12_FindPath.
+Print Assumptions C12_FindElement.
+Print Assumptions C12_ForEach.
+Print Assumptions C12_Array_ForEach.
+Print Assumptions C12_AsString.
+Print Assumptions C12_AsNumber.
+Print Assumptions C12_Interface.
+Print Assumptions C12_Interface_doc.
+Print Assumptions C12_Float_to_Int.
+Print Assumptions C12_Accessors.
